@@ -285,21 +285,33 @@ impl<T: RealNumber + ScalarOperand + AddAssign + SubAssign + MulAssign + DivAssi
     }
 
     fn add_mut(&mut self, other: &Self) -> &Self {
+        if self.shape() != other.shape() {
+            panic!("A and B should have the same shape");
+        }
         *self += other;
         self
     }
 
     fn sub_mut(&mut self, other: &Self) -> &Self {
+        if self.shape() != other.shape() {
+            panic!("A and B should have the same shape");
+        }
         *self -= other;
         self
     }
 
     fn mul_mut(&mut self, other: &Self) -> &Self {
+        if self.shape() != other.shape() {
+            panic!("A and B should have the same shape");
+        }
         *self *= other;
         self
     }
 
     fn div_mut(&mut self, other: &Self) -> &Self {
+        if self.shape() != other.shape() {
+            panic!("A and B should have the same shape");
+        }
         *self /= other;
         self
     }
@@ -407,6 +419,13 @@ impl<T: RealNumber + ScalarOperand + AddAssign + SubAssign + MulAssign + DivAssi
     }
 
     fn copy_from(&mut self, other: &Self) {
+        if self.shape() != other.shape() {
+            panic!(
+                "Can't copy {:?} matrix into {:?}.",
+                other.shape(),
+                self.shape()
+            );
+        }
         self.assign(other);
     }
 
